@@ -1,6 +1,11 @@
 """C01 - file-name matching follows the documented wildcard language (DESIGN.md section 5, C01)."""
 from .. import gen, refmodel as R, findings
-from ..common import F, flags_of, names_of, shape
+from ..common import F, flags_of, names_of, shape, foreign_bits, FNMATCH_FLAG_NAMES
+
+FOREIGN = foreign_bits(FNMATCH_FLAG_NAMES)
+ALL_FOREIGN = 0
+for _b in FOREIGN:
+    ALL_FOREIGN |= _b
 
 SPEC = {
     'rule': ('patterns are ASTs (bounded-exhaustive token sequences over 7 atoms + 225 depth-1 extended groups, then '
@@ -134,6 +139,22 @@ def check_pattern(ctx, toks, fnames, names, api_sample=False, noescape=(), text=
             singles = [n for n in sel[:40] if F.fnmatch(n, pat, flags=flags)]
         except Exception as e:  # noqa: BLE001
             flt = mflt = singles = f'raised {type(e).__name__}'
+        # bits that are no fnmatch flag (glob's, WcMatch's, internal ones, unused ones) are ignored
+        fb = FOREIGN[(len(pat) + len(sel)) % len(FOREIGN)]
+        try:
+            ff = [n for n in sel[:40] if F.fnmatch(n, pat, flags=flags | fb)]
+            fa = F.filter(sel[:40], pat, flags=flags | ALL_FOREIGN)
+            ft = (F.translate(pat, flags=flags | fb), F.translate(pat, flags=flags | ALL_FOREIGN))
+            t0 = F.translate(pat, flags=flags)
+        except Exception as e:  # noqa: BLE001
+            ff = fa = f'raised {type(e).__name__}'
+            ft, t0 = None, None
+        ctx.count('foreign_flag_bit_checks')
+        if not isinstance(singles, str) and (ff != singles or fa != singles or ft != (t0, t0)):
+            ctx.disagree(f'a flag bit that is no fnmatch flag changes the answer|{shape(toks)}',
+                         {'api': 'fnmatch.fnmatch / filter / translate', 'ast': toks, 'pattern': pat, 'flags': names_of(flags), 'foreign_bit': hex(fb),
+                          'names': sel[:40], 'without': singles if isinstance(singles, str) else singles[:20], 'with_bit': ff if isinstance(ff, str) else ff[:20],
+                          'with_all_foreign_bits': fa if isinstance(fa, str) else fa[:20], 'noescape': ''.join(noescape)})
         ctx.count('api_consistency_checks', 3)
         ctx.evals(3)
         if flt != want or mflt != want or singles != [n for n in want if n in sel[:40]]:
